@@ -15,7 +15,20 @@ if h:
     c.absorb_harness()
     timeouts = int(c.cov.get("watchdog_timeouts", 0) or 0)
     if drv and rc == 0:
-        rc, out = c.run("%s < cases.txt > model.obs" % drv, timeout=3000)
+        if c.tier == "thorough":
+            # the driver is single-threaded and quadratic in the length of a trace:
+            # shard the case lines over several processes (each line is independent)
+            shards = 8
+            parts = [open(os.path.join(c.work, "cases.%d.txt" % i), "w") for i in range(shards)]
+            for n, ln in enumerate(open(os.path.join(c.work, "cases.txt"))):
+                parts[n % shards].write(ln)
+            for f in parts:
+                f.close()
+            cmd = " & ".join("%s < cases.%d.txt > model.%d.obs" % (drv, i, i) for i in range(shards))
+            rc, out = c.run("(" + cmd + " & wait) ; cat " + " ".join("model.%d.obs" % i for i in range(shards)) + " > model.obs ; "
+                            "test $(wc -l < model.obs) -ge $(grep -c . cases.txt)", timeout=3000)
+        else:
+            rc, out = c.run("%s < cases.txt > model.obs" % drv, timeout=3000)
         if rc != 0:
             c.tie_broken("model driver C19 failed", out[-2000:])
         elif timeouts == 0:
